@@ -148,7 +148,10 @@ class Journal:
         self.seam_calls += 1
         if self.fault_at is not None and k == self.fault_at:
             self.fault_hit = (who, what)
-            raise self.fault_exc
+            # a fresh exception object per failure, as a real plugin raises: the journal must not keep the traceback
+            # (and through it the agent's and the application's frames) alive
+            proto = self.fault_exc
+            raise type(proto)(*proto.args)
 
     def rec(self, *ev):
         self.events.append(ev)
